@@ -57,6 +57,26 @@ def run_drivers(seed: int, nprog: int, nsteps: int, procs: int, outdir: str, pro
         return list(ex.map(one, range(procs)))
 
 
+def run_grid(kind: str, seed: int, thin: int, procs: int, outdir: str) -> List[str]:
+    """deterministic scenario grids for off-lattice requests (harness/grid.py), recorded through the tracer"""
+    os.makedirs(outdir, exist_ok=True)
+    env = dict(os.environ)
+    env["PYTHONPATH"] = "/repo:" + ROOT
+    env["PHOTON_WEAVE_VERIF"] = "1"
+    env["PYTHONHASHSEED"] = "0"
+
+    def one(k: int) -> str:
+        path = os.path.join(outdir, f"grid_{kind}{k}.ndjson")
+        p = subprocess.run([PY, "-m", "harness.grid", kind, str(k), str(procs), path, str(thin), str(seed)],
+                           cwd=ROOT, env=env, capture_output=True, text=True)
+        if p.returncode != 0:
+            raise RuntimeError(f"grid {kind} part {k} failed:\n{p.stderr[-2000:]}")
+        return path
+
+    with ThreadPoolExecutor(max_workers=procs) as ex:
+        return list(ex.map(one, range(procs)))
+
+
 def validate(files: List[str], procs: int = 8) -> Tuple[List[Dict[str, Any]], Dict[str, int]]:
     """TLC over every trace file.  Returns (failures, stats); a failure = first line of a trace
     on which a clause is violated (every line for action clauses)."""
